@@ -113,8 +113,36 @@ def monitor_wait(case, o):
     return out
 
 
+def monitor_spawn_causes(case, o):
+    """every spawn is asked for: start and restart always may spawn, a try-restart only when a process was running when it was
+    issued (a try-restart of an idle job does nothing, now or later)"""
+    out = []
+    ops = case["ops"]
+    if any(op["op"] in ("raw", "run_async", "drop_handle") for op in ops) or not all(op.get("yield", True) for op in ops):
+        return out
+    evs = parse_log(o)
+    allowed = 0
+    for k, op in enumerate(ops):
+        n = op["op"]
+        if n in ("start", "restart", "restart_with_signal"):
+            allowed += 1
+        elif n in ("try_restart", "try_restart_with_signal"):
+            T = op["at"]
+            if any(x["at"] == T for i, x in enumerate(ops) if i != k) or any(t == T and ev in ("spawn", "reap") for t, ev, a in evs):
+                return out           # not decidable from the log
+            spawned = [a[0] for t, ev, a in evs if ev == "spawn" and t < T]
+            reaped = {a[0]: t for t, ev, a in evs if ev == "reap"}
+            if any(c not in reaped or reaped[c] > T for c in spawned):
+                allowed += 1
+    attempts = len([1 for t, ev, a in evs if ev in ("spawn", "spawnfail")])
+    if attempts > allowed:
+        out.append(("C09_try_restart_never_starts_idle / C06_restart_once: a process was spawned that no control asked for",
+                    f"{attempts} spawn attempts, {allowed} controls that may spawn"))
+    return out
+
+
 def monitor(case, o):
-    out = monitor_wait(case, o)
+    out = monitor_wait(case, o) + monitor_spawn_causes(case, o)
     ops = case["ops"]
     child = case["script"]["children"]
     settled = all(op.get("yield", True) for op in ops) and all(op["op"] in SIMPLE for op in ops) \
